@@ -222,6 +222,70 @@ func runC05(ctx *Ctx) {
 		r.Set("kdf_history_calls", n)
 		r.Sample("GetKDFValue(K1,FC 6A,..) ; same key buffer overwritten with K2 ; GetKDFValue(K2,FC 6A,..) ; ... results against HMAC-SHA-256 written out by the harness")
 	}
+	// One subscription object and one UE context kept by the caller and modified IN PLACE between authentications (K, OP,
+	// OPc strings overwritten through the pointers GetAuthSubscription returned; K_AMF overwritten inside ue.Kamf before
+	// DerivateAlgKey): results must follow the current contents, not what the object held during an earlier call.
+	{
+		lo := r.Local()
+		ue := tglib.NewRanUeContext("imsi-"+supiDigits, 1, 2, 2)
+		subs := tglib.GetAuthSubscription(hex.EncodeToString(ks[0]), "", hex.EncodeToString(ops[0]))
+		type st struct {
+			k, op  []byte
+			opOnly bool
+		}
+		steps := []st{{ks[0], ops[0], true}, {ks[2], ops[0], true}, {ks[2], ops[2], true}, {ks[0], ops[0], false}, {ks[1], ops[1], false}, {ks[1], ops[1], true}, {ks[0], ops[2], true}}
+		for i, x := range steps {
+			opc := refcrypto.OPc(x.k, x.op)
+			subs.PermanentKey.PermanentKeyValue = hex.EncodeToString(x.k)
+			subs.Milenage.Op.OpValue = hex.EncodeToString(x.op)
+			if x.opOnly {
+				subs.Opc.OpcValue = ""
+			} else {
+				subs.Opc.OpcValue = hex.EncodeToString(opc)
+			}
+			var autn [16]byte
+			copy(autn[0:6], sqnaks[i%len(sqnaks)])
+			autn[6] = 0x80
+			want := refcrypto.Derive5G(x.k, opc, rands[0], autn[0:6], plmns[0][0], plmns[0][1], supiDigits, 2, 2)
+			cs := fmt.Sprintf("one subscription object modified in place, step %d: K=%x.. OP=%x.. opOnly=%v", i, x.k[:2], x.op[:2], x.opOnly)
+			var res []byte
+			if perr := recoverErr(func() {
+				res = ue.DeriveRESstarAndSetKey(subs, autn, append([]byte{}, rands[0]...), refcrypto.SNName(plmns[0][0], plmns[0][1]), plmns[0][1], plmns[0][0])
+			}); perr != nil {
+				r.Violate("derive/panic", cs, perr.Error(), nil)
+				break
+			}
+			lo.Case(cs, true, fmt.Sprintf("%x", res))
+			if !bytes.Equal(res, want.ResStar) || !bytes.Equal(ue.Kamf, want.Kamf) || ue.KnasEnc != want.KnasEnc || ue.KnasInt != want.KnasInt {
+				r.Violate("history/subscription-object-reused", cs, fmt.Sprintf("RES* %x (want %x) Kamf %x (want %x)", res, want.ResStar, ue.Kamf, want.Kamf), nil)
+				break
+			}
+			if x.opOnly && subs.Opc.OpcValue != "" {
+				r.Violate("history/derivation-wrote-into-the-subscription", cs, "an OPc appeared in the caller's subscription: "+subs.Opc.OpcValue, nil)
+			}
+			// K_AMF replaced in place, algorithm keys re-derived: for every algorithm pair
+			for alg := 0; alg < 16; alg++ {
+				newKamf := refcrypto.KDF(want.Kamf, 0x70+byte(i), []byte{byte(alg)})
+				copy(ue.Kamf, newKamf)
+				ue.CipheringAlg, ue.IntegrityAlg = uint8(alg/4), uint8(alg%4)
+				if perr := recoverErr(func() { ue.DerivateAlgKey() }); perr != nil {
+					r.Violate("DerivateAlgKey/panic", cs, perr.Error(), nil)
+					break
+				}
+				ke := refcrypto.KDF(newKamf, 0x69, []byte{0x01}, []byte{byte(alg / 4)})
+				ki := refcrypto.KDF(newKamf, 0x69, []byte{0x02}, []byte{byte(alg % 4)})
+				cs2 := fmt.Sprintf("%s ; K_AMF overwritten in place, DerivateAlgKey(enc=%d,int=%d)", cs, alg/4, alg%4)
+				lo.Case(cs2, true, "")
+				if !bytes.Equal(ue.KnasEnc[:], ke[16:]) || !bytes.Equal(ue.KnasInt[:], ki[16:]) {
+					r.Violate("history/DerivateAlgKey-after-K_AMF-changed-in-place", cs2, fmt.Sprintf("K_NASenc %x (want %x) K_NASint %x (want %x)", ue.KnasEnc, ke[16:], ue.KnasInt, ki[16:]), nil)
+					break
+				}
+			}
+			ue.CipheringAlg, ue.IntegrityAlg = 2, 2
+		}
+		lo.Merge()
+		r.Sample("one subscription object: derive(K1,OP1 only) ; K overwritten in place ; derive(K2,OP1 only) ; ... ; K_AMF overwritten in place ; DerivateAlgKey for all 16 algorithm pairs")
+	}
 	lh := r.Local()
 	nseq := 0
 	var rec func(seq []int)
